@@ -37,7 +37,7 @@ auto d_matrix_product(const At & A, const dAt & dA, const Bt & B, const dBt & dB
   Eigen::Matrix<Scalar, N, dAB_cols> dAB = B.transpose() * dA;
   for (auto i = 0u; i < n; ++i) {
     for (auto j = 0u; j < m; ++j) {
-      dAB.template middleCols<Nvar>(i * nvar, nvar) += A(i, j) * dB.template middleCols<Nvar>(j * Nvar, nvar);
+      dAB.template middleCols<Nvar>(i * nvar, nvar) += A(i, j) * dB.template middleCols<Nvar>(j * nvar, nvar);
     }
   }
   return dAB;
